@@ -117,6 +117,36 @@ def run(ctx, res):
                         f.loc(f.blocks[sb]["term"]["span"]))
             else:
                 res.ok("EFFECT-GUARD", key, "true edge refuses")
+    # ---- REFUSE-FIRST: in a guarded built-in arm the refusal must not depend on anything else. Every path from
+    # the arm's entry to a return of the dispatcher passes through the enforce_sandbox test (so a call in a
+    # position whose value is unused, or with odd arguments, is refused all the same).
+    n_first = 0
+    for p in sorted(reach):
+        f = P.funcs[p]
+        gs = guards(f)
+        if not gs:
+            continue
+        rets = set(f.exits())
+        for sw in D.enum_switches(f):
+            if D.short_ty(sw["ety"]) not in S.ARM_ENUMS:
+                continue
+            targets = dict(sw["by_target"])
+            for tgt, names in targets.items():
+                region = D.edge_dominated(f, sw["bb"], tgt)
+                arm_guards = [g for g in gs if g[0] in region or g[0] == tgt]
+                if not arm_guards:
+                    continue
+                n_first += 1
+                leak = D.reach_from(f, [tgt], avoid_blocks=[g[0] for g in arm_guards]) & rets
+                key = "%s # %s # refuse-first" % (p, "|".join(names))
+                if leak:
+                    res.bad("REFUSE-FIRST", key,
+                            "the built-in %s can return without consulting Env.enforce_sandbox on some path (its sandbox "
+                            "refusal depends on another condition, e.g. whether the value is used)" % "|".join(names),
+                            f.loc(f.blocks[arm_guards[0][0]]["term"]["span"]))
+                else:
+                    res.ok("REFUSE-FIRST", key)
+    res.floor("REFUSE-FIRST", "guarded built-in arms", n_first, 12)
     res.floor("EFFECT-GUARD", "effect call sites reachable from eval", n_direct, 20)
     res.floor("EFFECT-GUARD", "enforce_sandbox guards", n_guards, 12)
 
